@@ -8,8 +8,8 @@ from hypothesis import strategies as st
 from . import model as M
 
 FLOATS = [1.0, -1.5, 2.0, 2.5, 3.0, 0.5, -2.0, 4.0, 10.0, 0.0, 0.3, 0.7]
-PARAM_KEYS = ["factor", "addend", "divisor", "value", "w", "p", "q", "path", "seed", "k", "tag"]
-OTHER_KEYS = ["a", "b", "c", "k1", "out", "t_values", "w_key", "ps_a", "seq", "long_key"]
+PARAM_KEYS = ["factor", "addend", "divisor", "value", "w", "p", "q", "path", "seed", "k", "tag", "n", "label", "flag"]
+OTHER_KEYS = ["a", "b", "c", "k1", "out", "t_values", "w_key", "ps_a", "seq", "long_key", "x.y", "x_y"]  # x.y / x_y: distinct keys, one identifier
 ALL_KEYS = PARAM_KEYS + OTHER_KEYS
 PATHS = ["out_a.txt", "out_b.txt"]
 
@@ -25,7 +25,7 @@ def value_for(name: str, bad: float = 0.06):
     elif name == "kind":
         good = st.sampled_from(["value", "runtime"])
     elif name == "tag":
-        good = st.sampled_from(["s", "tx", "run1"])
+        good = st.sampled_from(["s", "tx", "run1", "1e3", None])  # "1e3": a string for YAML 1.1, a float for YAML 1.2
     elif name in ("seq", "t_values"):
         good = st.lists(st.sampled_from(FLOATS), min_size=1, max_size=3)
     elif name in ("a", "b", "c", "k1", "out"):
@@ -33,6 +33,12 @@ def value_for(name: str, bad: float = 0.06):
     elif name in ("p", "q") and bad > 0:
         # a context / config value may literally be None (present-with-None is not the same as absent)
         good = st.one_of(*([floats] * 12), st.none())
+    elif name == "n":  # values equal to (and identical with) the declared default occur on purpose
+        good = st.sampled_from([2, 3, 2, 7])
+    elif name == "label":
+        good = st.sampled_from(["x", "y", "x"])
+    elif name == "flag":
+        good = st.sampled_from([True, False, True])
     elif name == "opts":
         good = st.fixed_dictionaries({"k": floats})
     elif name == "long_key":  # a value whose repr is far longer than any display limit; variants differ only at the end
@@ -49,7 +55,7 @@ SOURCES = ["FloatValueDataSource", "FloatValueDataSourceWithDefault", "FloatData
 FLOAT_OPS = ["FloatMultiplyOperation", "FloatMultiplyOperationWithDefault", "FloatAddOperation", "FloatSquareOperation",
              "FloatSqrtOperation", "FloatDivideOperation", "VCtxWriteOp", "VInPlaceScaleOp", "VLongTailOp"]
 RARE_OPS = ["VUndeclaredWriteOp", "VRaiseOp"]
-PROBES = ["FloatBasicProbe", "FloatCollectValueProbe", "VEchoProbe", "VNoneDefaultProbe"]
+PROBES = ["FloatBasicProbe", "FloatCollectValueProbe", "VEchoProbe", "VNoneDefaultProbe", "VDefaultsProbe"]
 SINKS = ["FloatDataSink", "FloatPayloadSink", "FloatMockDataSink", "FloatTxtFileSaver"]
 SLICE_OPS = ["FloatMultiplyOperation", "FloatMultiplyOperationWithDefault", "FloatAddOperation", "FloatSquareOperation",
              "FloatDivideOperation", "VCtxWriteOp", "VInPlaceScaleOp"]
@@ -81,6 +87,8 @@ def var_spec(draw, allow_ctx: bool = True, rich: bool = False):
     k = draw(st.sampled_from(kinds))
     if k == "values":
         if rich and draw(st.integers(0, 5)) == 0:  # occasionally a long explicit sequence (interior elements matter too)
+            if draw(st.sampled_from([False, False, True])):
+                return {"kind": "values", "values": [float((i * draw(st.sampled_from([1, 3]))) % 11) for i in range(draw(st.sampled_from([32, 40, 65])))]}
             return {"kind": "values", "values": draw(st.lists(st.sampled_from(FLOATS), min_size=7, max_size=10))}
         spec = {"kind": "values", "values": draw(st.lists(st.sampled_from(FLOATS), min_size=1, max_size=4 if rich else 3))}
         if rich and draw(st.sampled_from([False] * 6 + [True])):
@@ -106,7 +114,7 @@ def sweep_spec(draw, wrapped: str, rich: bool = False):
     names = list(draw(st.permutations(["t", "s", "r"]))[:nvars])
     if rich:  # user-chosen names that coincide with keys the framework uses inside its own metadata blocks
         # ... or with a parameter of the wrapped processor (which the sweep may or may not compute)
-        odd = draw(st.sampled_from([None] * 6 + ["expr", "preprocessor_view", "sig", "values"] +
+        odd = draw(st.sampled_from([None] * 6 + ["expr", "preprocessor_view", "sig", "values", "max", "abs", "float"] +
                                    [n for n, _ in base["params"] if n not in ("marker", "kind", "opts")] * 2))
         if odd:
             names[0] = odd
@@ -171,6 +179,7 @@ def node(draw, kind: str, known: List[str], sweeps: bool = True, rare: bool = Tr
             ks = draw(st.lists(st.sampled_from(known or ALL_KEYS) if draw(st.booleans()) else st.sampled_from(ALL_KEYS),
                                min_size=1, max_size=2, unique=True))
             out = draw(st.sampled_from(OTHER_KEYS * 4 + ["path", "path", "p"] + PARAM_KEYS))
+            ks = [k for k in ks if "." not in k] or ["a"]  # placeholders must be identifiers (dotted keys are rejected at construction)
             tpl = "_".join("{" + k + "}" for k in ks) + draw(st.sampled_from(["", "_x", ".txt"]))
             n["p"] = f'template:"{tpl}":{out}'
         return n
@@ -246,7 +255,7 @@ def case(draw, max_nodes: int = 8, sweeps: bool = True, rare: bool = True, typed
                     # an earlier node produces the key: a probe (float data), a template (path) or a rename
                     if name == "path":
                         src = draw(st.sampled_from(known)) if known else None
-                        if src and src != name:
+                        if src and src != name and "." not in src:
                             pre_nodes.append({"p": f'template:"f_{{{src}}}.txt":{name}'})
                     elif kind == "Float" and k_for_node == kind:
                         pre_nodes.append({"p": "FloatCollectValueProbe", "context_key": name})
